@@ -19,10 +19,10 @@ import (
 // C03: access decisions are enforced on every operation.
 
 type c03Req struct {
-	Route  string `json:"route"`
-	Caller string `json:"caller"` // userA | userB | admin | root
-	SrcOther bool `json:"src_other,omitempty"` // copy source in the other bucket
-	GW     int    `json:"gw"`
+	Route    string `json:"route"`
+	Caller   string `json:"caller"`              // userA | userB | admin | root
+	SrcOther bool   `json:"src_other,omitempty"` // copy source in the other bucket
+	GW       int    `json:"gw"`
 }
 
 type c03Prog struct {
@@ -48,7 +48,9 @@ func (c03) Runs(tier string) int {
 	}
 	return 1500
 }
-func (c03) RequiredProbes(string) []string { return []string{"unauthorised_request_denied", "authorised_request_succeeded"} }
+func (c03) RequiredProbes(string) []string {
+	return []string{"unauthorised_request_denied", "authorised_request_succeeded"}
+}
 
 func c03GenPolicy(r *rand.Rand, bucket string, users []string) *model.Policy {
 	p := &model.Policy{}
